@@ -21,7 +21,7 @@ COMPONENTS = {"real": ["torchphysics DeepONet, FCBranchNet, ConvBranchNet1D, FCT
 
 
 def budget(tier):
-    return {"cases": 1500 if tier == "quick" else 60000, "wall": 900 if tier == "quick" else 3300, "shrink": 40, "det_legs": 4}
+    return {"cases": 1500 if tier == "quick" else 60000, "wall": 900 if tier == "quick" else 3000, "shrink": 40, "det_legs": 4}
 
 
 def _spec(r):
